@@ -20,7 +20,7 @@ The ops mirror `Machine.op` (coq/theories/Mut/Machine.v) one to one:
     ["copyto", sti, src, ti, target, add_self, BEFORE, deep]  OCopyTo  (src = 0: Tree.copy_to)
     ["treecopy", sti]                                  OTreeCopy   Tree.copy()
     ["nodecopy", sti, src, add_self]                   ONodeCopy   Node.copy()
-    ["move", ti, n, tti, target, BEFORE]               OMove       (target = 0: the Tree object)
+    ["move", ti, n, tti, target, BEFORE]               OMove       (target = 0: the Tree object; tti != ti: a node of another tree)
     ["remove", ti, n, keep_children, with_clones]      ORemove
     ["remove_children", ti, n]                         ORemoveChildren
     ["clear", ti]                                      OClear
@@ -1065,8 +1065,14 @@ class Gen:
             if not ids:
                 return
             n = rng.choice(ids)
-            tti = ti if (not self.malformed or rng.random() < 0.7) else self.pick_tree()
+            # mostly inside one tree; now and then (more often in the malformed stream) into ANOTHER tree,
+            # there mostly below one of its nodes rather than the Tree object
+            tti = ti if rng.random() < (0.6 if self.malformed else 0.85) else self.pick_tree()
             tgt = self.any_node(tti)
+            if tti != ti and tgt == 0 and rng.random() < 0.7:
+                other = live_ids(w, tti)
+                if other:
+                    tgt = rng.choice(other)
             if not self.malformed and tgt != 0:
                 nn, tn = w.live_node(n, ti), w.live_node(tgt, tti)
                 if tn is nn or tn.is_descendant_of(nn):
@@ -1324,7 +1330,8 @@ def gen_shapes(shapes, *, labelings=("distinct", "equal"), typed=(False,), famil
 
 
 def gen_addtree(typed=(False,)):
-    """Two-tree worlds: every add(tree)/copy_to(tree) argument combination."""
+    """Two-tree worlds: every add(tree)/copy_to(tree) argument combination, and every cross-tree move_to
+    (node of one tree -> node / Tree object of the other x `before`)."""
     for ty in typed:
         univ = ["s:a", "s:b", "s:c", "s:x", "s:y", "s:z"]
         k = "k1" if ty else None
@@ -1339,6 +1346,14 @@ def gen_addtree(typed=(False,)):
             alts.append(["copyto", 0, 0, 1, p, False, None, True])
         alts.append(["addtree", 0, 0, 1, None, None])
         alts.append(["addtree", 1, 7, 1, None, None])
+        # cross-tree move_to: every node of tree 0 to every NODE of tree 1 (and to the Tree object) x the forms of
+        # `before`; documented: "Can only move nodes inside same tree" - refused, nothing changes in either tree
+        for n in (1, 2, 3, 4):
+            for tgt, ch in ((0, [5, 6]), (5, [7]), (6, []), (7, [])):
+                for b in [None, True, False, 0, -1] + [{"n": c} for c in ch] + [{"n": 1}]:
+                    alts.append(["move", 0, n, 1, tgt, b])
+        for n, tgt in ((5, 1), (7, 2), (7, 4), (6, 0)):
+            alts.append(["move", 1, n, 0, tgt, None])
         yield dict(univ=univ, setup=setup, alts=alts, label="addtree" + ("/typed" if ty else ""), n=7)
 
 
